@@ -2,6 +2,7 @@ use crate::ctx::Ctx;
 
 pub mod c01;
 pub mod c02;
+pub mod c03;
 pub mod c05;
 pub mod c08;
 pub mod c13;
@@ -16,6 +17,7 @@ pub fn dispatch(ctx: &mut Ctx) {
     match ctx.prop.as_str() {
         "C01" => c01::run(ctx),
         "C02" => c02::run(ctx),
+        "C03" => c03::run(ctx),
         "C05" => c05::run(ctx),
         "C08" => c08::run(ctx),
         "C13" => c13::run(ctx),
